@@ -1,0 +1,40 @@
+//go:build verif
+
+package txwatcher
+
+import "time"
+
+// VerifNotify hands a (possibly stale) block height to the observation loop
+// of one swap, the way StartWatchingTxs does for new blocks. It reports false
+// if the swap has no running observer or the observer did not take the height
+// within the timeout (it has finished).
+func (s *BlockchainRpcTxWatcher) VerifNotify(swapId string, height uint32, timeout time.Duration) bool {
+	s.Lock()
+	obs, ok := s.observerLoopList[swapId]
+	s.Unlock()
+	if !ok {
+		return false
+	}
+	select {
+	case obs.blockChan <- height:
+		return true
+	case <-time.After(timeout):
+		return false
+	}
+}
+
+// VerifObserving reports whether an observation loop is registered for the swap.
+func (s *BlockchainRpcTxWatcher) VerifObserving(swapId string) bool {
+	s.Lock()
+	defer s.Unlock()
+	_, ok := s.observerLoopList[swapId]
+	return ok
+}
+
+// VerifCsvWatched reports whether the swap is on the csv watch list.
+func (s *BlockchainRpcTxWatcher) VerifCsvWatched(swapId string) bool {
+	s.Lock()
+	defer s.Unlock()
+	_, ok := s.csvtxWatchList[swapId]
+	return ok
+}
